@@ -77,6 +77,14 @@ CHECKS.update({
             SYMNOTE, "DESIGN.md §4 C16"),
 })
 
+CHECKS.update({
+    "C20": (True, "receiver-discipline rule over resolved calls + symbolic evaluation of the plotting functions against an "
+                  "abstract axes (drawing calls logged with reachability conditions and coordinate normal forms)",
+            CLAUSE + "Decides PL-RECV, PL-IDX, PL-FOOT, PL-SEG, PL-MAX, PL-DGM, PL-LIM, PL-LAND. Declines: pixel-level "
+            "rendering, single-precision rounding of offsets, legend contents, the 3-D landscape plots (they discard ax).",
+            SYMNOTE + "Axes methods draw on their receiver; pyplot functions on the current axes.", "DESIGN.md §4 C20"),
+})
+
 NOT_APPLICABLE = {
     "C05": "soundness of the mGH lower/upper bounds is a theorem about computed values for every graph pair and RNG "
            "draw; no ownership, ordering, wiring or algebraic-type argument implies it (DESIGN.md §6); nearby "
